@@ -263,6 +263,65 @@ func c11GenBlock(t *rapid.T, label string, o c11BlockOpts) *c11Block {
 	return blk
 }
 
+// c11BlobSpec describes one blob of a hand-written block (fixed witnesses).
+type c11BlobSpec struct {
+	NSIdx int
+	Ver   uint8
+	Len   int
+}
+
+// c11BlockFromSpecs builds a block without rapid: one BlobTx per inner slice, payload bytes from a
+// PRNG seeded with seed, nNormal ordinary 40-byte transactions in front.
+func c11BlockFromSpecs(seed uint64, nNormal int, txs [][]c11BlobSpec) (*c11Block, error) {
+	rng := rand.New(rand.NewPCG(seed, 0xC11B10B))
+	fill := func(n int) []byte {
+		b := make([]byte, n)
+		for i := range b {
+			b[i] = byte(rng.Uint32())
+		}
+		return b
+	}
+	blk := &c11Block{Seed: seed, NormalTxs: nNormal}
+	for i := 0; i < nNormal; i++ {
+		b := fill(40)
+		b[0] = 0x07
+		blk.Txs = append(blk.Txs, b)
+	}
+	for ti, specs := range txs {
+		var libs []*libshare.Blob
+		for pi, sp := range specs {
+			var signer []byte
+			if sp.Ver == libshare.ShareVersionOne {
+				signer = fill(libshare.SignerSize)
+			}
+			lib, err := libshare.NewBlob(vk.BlobNS(sp.NSIdx), fill(sp.Len), sp.Ver, signer)
+			if err != nil {
+				return nil, err
+			}
+			com, err := inclusion.CreateCommitment(lib, merkle.HashFromByteSlices, appconsts.SubtreeRootThreshold)
+			if err != nil {
+				return nil, err
+			}
+			blk.Blobs = append(blk.Blobs, &c11GenBlob{
+				Lib: lib, NSIdx: sp.NSIdx, Tx: ti, PosInTx: pi, SizeClass: "fixed", DupOf: -1, Commitment: com,
+				Shares: libshare.SparseSharesNeeded(uint32(sp.Len), sp.Ver == libshare.ShareVersionOne),
+			})
+			libs = append(libs, lib)
+		}
+		inner := fill(90)
+		inner[0] = 0x07
+		raw, err := tx.MarshalBlobTx(inner, libs...)
+		if err != nil {
+			return nil, err
+		}
+		blk.Txs = append(blk.Txs, raw)
+	}
+	if err := blk.build(); err != nil {
+		return nil, err
+	}
+	return blk, nil
+}
+
 // build lays the block out with the real builder and extends it.
 func (b *c11Block) build() error {
 	builder, err := square.NewBuilder(appconsts.SquareSizeUpperBound, appconsts.SubtreeRootThreshold, b.Txs...)
